@@ -50,6 +50,8 @@ def run_case(sc, monitors, res, case, tap=True, counters=(), lateness=None, nont
         if v:
             res.count("frontend_" + k, v)
     res.count("obs_timer_spins", sim.timer_spins)
+    for k, v in sim.spin_sources.items():
+        res.count("obs_timer_spin_source:" + k, v)
     if sim.stopped_reason == "step-cap":
         res.inconclusive.append("step cap hit (seed %s)" % sc["seed"])
     if ok and (nontrivial is None or nontrivial(sim)):
